@@ -41,7 +41,7 @@ Record Inv (s : st) : Prop := mkInv {
   i_cy : 0 <= snd (cur s) < height s;
   i_reg : 0 <= sr_start s /\ sr_start s <= sr_end s /\ sr_end s < height s;
   i_cursor : match cursor s with None => True | Some (x, y) => 0 <= x < width s /\ 0 <= y < height s end;
-  i_sup : 0 <= sup s;
+  i_sup : 0 <= sup s <= zlen (sb s);
   i_tabs : width s <= 8 * zlen (tabstops s);
   i_attr : oattr_ok (attrspec s);
   i_sattr : match saved_attrs s with Some (a, _) => oattr_ok a | None => True end;
@@ -56,6 +56,18 @@ Inductive SbExt : list row -> list row -> Prop :=
 
 Lemma SbExt_trans a b c : SbExt a b -> SbExt b c -> SbExt a c.
 Proof. intros H1 H2. induction H2; [assumption|]. constructor. auto. Qed.
+
+Lemma sb_push_len b r : zlen b <= zlen (sb_push b r).
+Proof.
+  unfold sb_push. cbv zeta. destruct (scrollback_maxlen_gen <? zlen (b ++ [r])).
+  - pose proof (zlen_dropz 1 (b ++ [r])) as E.
+    assert (zlen (b ++ [r]) = zlen b + 1) as E2 by (unfold zlen; rewrite app_length; cbn [length]; lia).
+    pose proof (zlen_nonneg b). lia.
+  - assert (zlen (b ++ [r]) = zlen b + 1) as E2 by (unfold zlen; rewrite app_length; cbn [length]; lia). lia.
+Qed.
+
+Lemma SbExt_len a b : SbExt a b -> zlen a <= zlen b.
+Proof. intros H. induction H; [lia|]. pose proof (sb_push_len b r). lia. Qed.
 
 (* what every operation other than resize keeps *)
 Definition K (s s' : st) : Prop :=
@@ -90,11 +102,11 @@ Proof. intros H. destruct r; cbn; [|tauto]. intros. eapply K_trans; eauto. Qed.
 Lemma Inv_ext s s' :
   width s' = width s -> height s' = height s -> term s' = term s -> cur s' = cur s -> cursor s' = cursor s ->
   sup s' = sup s -> sr_start s' = sr_start s -> sr_end s' = sr_end s -> tabstops s' = tabstops s ->
-  attrspec s' = attrspec s -> saved_attrs s' = saved_attrs s -> events s' = events s ->
+  attrspec s' = attrspec s -> saved_attrs s' = saved_attrs s -> events s' = events s -> sb s' = sb s ->
   Inv s -> Inv s'.
 Proof.
-  intros E1 E2 E3 E4 E5 E6 E7 E8 E9 E10 E11 E12 [].
-  constructor; rewrite ?E1, ?E2, ?E3, ?E4, ?E5, ?E6, ?E7, ?E8, ?E9, ?E10, ?E11, ?E12; assumption.
+  intros E1 E2 E3 E4 E5 E6 E7 E8 E9 E10 E11 E12 E13 [].
+  constructor; rewrite ?E1, ?E2, ?E3, ?E4, ?E5, ?E6, ?E7, ?E8, ?E9, ?E10, ?E11, ?E12, ?E13; assumption.
 Qed.
 
 Lemma K_ext s s' :
@@ -151,14 +163,14 @@ Proof. intros []. split; assumption. Qed.
 Lemma term_sb_K s t b :
   Inv s -> Dims (width s) (height s) t -> SbExt (sb s) b -> K s (with_term (with_sb s b) t).
 Proof.
-  intros I [D1 D2] S. k_split; try reflexivity; [|exact S].
-  destruct I. constructor; cbn; auto.
+  intros I [D1 D2] S. k_split; try reflexivity; [|exact S]. pose proof (SbExt_len _ _ S).
+  destruct I. constructor; cbn; auto. ulia.
 Qed.
 
 Lemma with_sb_K s b : Inv s -> SbExt (sb s) b -> K s (with_sb s b).
 Proof.
-  intros I S. k_split; try reflexivity; [|exact S].
-  destruct I. constructor; cbn; auto.
+  intros I S. k_split; try reflexivity; [|exact S]. pose proof (SbExt_len _ _ S).
+  destruct I. constructor; cbn; auto. lia.
 Qed.
 
 Lemma with_term_K s t : Inv s -> Dims (width s) (height s) t -> K s (with_term s t).
@@ -250,18 +262,21 @@ Qed.
 Lemma insert_lines_Keeps s n : Inv s -> Keeps s (insert_lines s n).
 Proof.
   intros I. pose proof (Inv_dims s I) as D. pose proof (i_w s I). pose proof (i_reg s I). pose proof (i_cy s I).
-  unfold insert_lines. apply Keeps_of_term; [assumption|].
+  unfold insert_lines. cbv zeta.
+  destruct (negb ((sr_start s <=? snd (cur s)) && (snd (cur s) <=? sr_end s))); [apply K_refl; assumption|].
+  apply Keeps_of_term; [assumption|].
   apply iter_res_inv; [assumption|]. intros t [T1 T2]. cbv beta. unfold row, cell in *.
-  destruct (pop_ok (insert t (snd (cur s)) (empty_line s [32])) (sr_end s)) as (z & t' & E & L & _ & _ & F);
-    [rewrite zlen_insert; ulia|]. una; rewrite E. cbn [bind snd].
-  eexists. split; [reflexivity|]. rewrite zlen_insert in L. split; [ulia|].
-  apply F. apply Forall_insert; [assumption|]. apply zlen_empty_line. ulia.
+  destruct (pop_ok t (sr_end s)) as (z & t' & E & L & _ & _ & F); [ulia|]. una; rewrite E. cbn [bind snd].
+  eexists. split; [reflexivity|]. split; [rewrite zlen_insert; ulia|].
+  apply Forall_insert; [apply F; assumption|]. apply zlen_empty_line. ulia.
 Qed.
 
 Lemma remove_lines_Keeps s n : Inv s -> Keeps s (remove_lines s n).
 Proof.
   intros I. pose proof (Inv_dims s I) as D. pose proof (i_w s I). pose proof (i_reg s I). pose proof (i_cy s I).
-  unfold remove_lines. apply Keeps_of_term; [assumption|].
+  unfold remove_lines. cbv zeta.
+  destruct (negb ((sr_start s <=? snd (cur s)) && (snd (cur s) <=? sr_end s))); [apply K_refl; assumption|].
+  apply Keeps_of_term; [assumption|].
   apply iter_res_inv; [assumption|]. intros t [T1 T2]. cbv beta. unfold row, cell in *.
   destruct (pop_ok t (snd (cur s))) as (z & t' & E & L & _ & _ & F); [ulia|]. una; rewrite E. cbn [bind snd].
   eexists. split; [reflexivity|]. split; [rewrite zlen_insert; ulia|].
@@ -373,6 +388,9 @@ Proof. intros. k_ext. Qed.
 Lemma leave_escape_K s : Inv s -> K s (leave_escape s).
 Proof. intros. unfold leave_escape. k_ext. Qed.
 
+Lemma set_term_cursor_unrotten_K s x y : Inv s -> K s (set_term_cursor (with_rotten s false) x y).
+Proof. intros I. eapply K_trans; [apply with_rotten_K; eassumption|]. apply set_term_cursor_K. apply with_rotten_K. assumption. Qed.
+
 Lemma with_attrspec_K s a : Inv s -> oattr_ok a -> K s (with_attrspec s a).
 Proof.
   intros I A. k_split; try reflexivity; [|constructor]. destruct I. constructor; cbn; auto.
@@ -395,9 +413,9 @@ Qed.
 Lemma restore_cursor_K s b : Inv s -> K s (restore_cursor s b).
 Proof.
   intros I. unfold restore_cursor. destruct (saved_cur s) as [[x y]|] eqn:E; [|apply K_refl; assumption].
-  pose proof (set_term_cursor_K s x y I) as K1.
+  pose proof (set_term_cursor_unrotten_K s x y I) as K1.
   destruct b; [|exact K1].
-  destruct (saved_attrs (set_term_cursor s x y)) as [[a [[sg ac] cu]]|] eqn:E2; [|exact K1].
+  destruct (saved_attrs (set_term_cursor (with_rotten s false) x y)) as [[a [[sg ac] cu]]|] eqn:E2; [|exact K1].
   eapply K_trans; [exact K1|]. destruct K1 as (I1 & _).
   pose proof (i_sattr _ I1) as A. rewrite E2 in A.
   eapply K_trans; [apply with_attrspec_K; eassumption|].
@@ -633,7 +651,7 @@ Proof.
       - destruct (Bool.eqb (m_reverse_video (modes s)) flag); [apply K_refl; assumption|apply reverse_video_Keeps; assumption].
       - intros s1 (I1 & _). apply with_modes_K. assumption. }
     destruct (mode =? 6).
-    { cbn [Keeps]. eapply K_trans; [apply with_modes_K; eassumption|]. apply set_term_cursor_K. apply with_modes_K. assumption. }
+    { cbn [Keeps]. eapply K_trans; [apply with_modes_K; eassumption|]. apply set_term_cursor_unrotten_K. apply with_modes_K. assumption. }
     destruct (mode =? 7); [apply with_modes_K; assumption|].
     destruct (mode =? 25).
     { cbn [Keeps]. eapply K_trans; [apply with_modes_K; eassumption|]. apply set_term_cursor_here_K. apply with_modes_K. assumption. }
@@ -669,7 +687,7 @@ Proof.
     subst s2. rewrite constrain_ign. subst s1. rewrite constrain_ign.
     pose proof (i_h s I). destruct I. constructor; cbn; auto.
     split_ifs; lia. }
-  eapply K_trans; [exact K2|]. apply set_term_cursor_K. apply K2.
+  eapply K_trans; [exact K2|]. apply set_term_cursor_unrotten_K. apply K2.
 Qed.
 
 Lemma csi_clear_tabstop_Keeps s mode : Inv s -> Keeps s (csi_clear_tabstop s mode).
@@ -724,7 +742,7 @@ Proof.
 Qed.
 
 Lemma carriage_return_K s : Inv s -> K s (carriage_return s).
-Proof. intros. apply set_term_cursor_K. assumption. Qed.
+Proof. intros. apply set_term_cursor_unrotten_K. assumption. Qed.
 
 Lemma newline_Keeps s : Inv s -> Keeps s (newline s).
 Proof.
@@ -733,7 +751,7 @@ Proof.
 Qed.
 
 Lemma move_cursor_K s x y a b c : Inv s -> K s (move_cursor s x y a b c).
-Proof. intros. unfold move_cursor. apply set_term_cursor_K. assumption. Qed.
+Proof. intros. unfold move_cursor. apply set_term_cursor_unrotten_K. assumption. Qed.
 
 Lemma push_char_Keeps s ch x y : Inv s -> Keeps s (push_char s ch x y).
 Proof.
@@ -754,7 +772,7 @@ Proof.
     + eapply Keeps_trans; [apply with_rotten_K; eassumption|]. apply push_char_Keeps. apply with_rotten_K. assumption.
     + cbv zeta.
       destruct ((width s <=? x + 1) && rotten s).
-      * destruct (sr_end s <=? y).
+      * destruct (y =? sr_end s).
         -- pose proof (scroll_Keeps s false I) as Ks. destruct (scroll s false) as [s1|]; [|contradiction].
            cbn [bind]. eapply Keeps_trans; [exact Ks|]. destruct Ks as (I1 & _).
            eapply Keeps_trans; [apply set_term_cursor_K; eassumption|].
@@ -967,7 +985,7 @@ Proof.
     destruct (m_lfnl (modes s1)); [apply carriage_return_K; assumption|apply K_refl; assumption]. }
   destruct (negb (m_display_ctrl (modes s)) && is1 ch 9); [apply tab_Keeps; assumption|].
   destruct (negb (m_display_ctrl (modes s)) && is1 ch 8).
-  { destruct (0 <? x); [apply set_term_cursor_K; assumption|apply K_refl; assumption]. }
+  { cbv zeta. destruct (0 <? x); [apply set_term_cursor_unrotten_K; assumption|apply with_rotten_K; assumption]. }
   destruct (negb (m_display_ctrl (modes s)) && is1 ch 7 && negb (pstate s =? 2)).
   { apply with_events_K; [assumption|exact Logic.I]. }
   destruct (negb (m_display_ctrl (modes s)) && in1 ch [24; 26]); [apply leave_escape_K; assumption|].
@@ -1017,7 +1035,7 @@ Record Core (s : st) : Prop := mkCore {
   c_rows : zlen (term s) = height s;
   c_cols : Forall (fun r : row => zlen r = width s) (term s);
   c_reg : 0 <= sr_start s /\ sr_start s <= sr_end s /\ sr_end s < height s;
-  c_sup : 0 <= sup s;
+  c_sup : 0 <= sup s <= zlen (sb s);
   c_attr : oattr_ok (attrspec s);
   c_sattr : match saved_attrs s with Some (a, _) => oattr_ok a | None => True end;
   c_ev : Forall wf_event (events s) }.
@@ -1136,16 +1154,171 @@ Proof.
         [rewrite Ts1; una; lia|rewrite Ws1, Ts1; exact T2|].
       exists s2. split; [exact E2|]. rewrite Ws1, Ts1 in *. repeat split; auto. una; lia.
     - exists s1. split; [reflexivity|]. rewrite Ts1, Ws1. repeat split; auto. una; lia. }
-  rewrite E2. cbn [bind].
-  set (s4 := reset_scroll (with_height s2 h)).
+  rewrite E2. cbn [bind]. cbv zeta.
+  match goal with |- context [constrain ?S x y0 0] => set (s4 := S) end.
   assert (Core s4) as C4.
   { subst s4. unfold reset_scroll. destruct I. constructor; cbn; try rewrite B3; try rewrite B4; try rewrite B5;
-      try rewrite B6; try rewrite B7; auto; try lia. }
+      try rewrite B6; try rewrite B7; auto; try lia.
+    pose proof (zlen_nonneg (sb s2)). una; lia. }
   pose proof (resize_finish s4 x y0 C4) as IF.
   destruct (constrain s4 x y0 0) as [x1 y1] eqn:Ec. cbn [fst snd] in IF.
   eexists. split; [reflexivity|]. split; [exact IF|].
   pose proof (set_term_cursor_wh s4 x1 y1) as Q2. injection Q2 as Rw Rh.
   split.
-  - change (width (set_term_cursor s4 x1 y1) = w). rewrite Rw. reflexivity.
+  - change (width (set_term_cursor s4 x1 y1) = w). rewrite Rw. exact B3.
   - change (height (set_term_cursor s4 x1 y1) = h). rewrite Rh. reflexivity.
+Qed.
+
+(* ---------- view operations, construction, sessions ---------- *)
+Lemma scroll_buffer_K s up rs lines : Inv s -> K s (scroll_buffer s up rs lines).
+Proof.
+  intros I. unfold scroll_buffer. pose proof (zlen_nonneg (sb s)) as Hn.
+  assert (forall v, 0 <= v <= zlen (sb s) -> K s (set_term_cursor_here (with_sup s v))) as Hv.
+  { intros v Hv. assert (K s (with_sup s v)) as K1.
+    { k_split; try reflexivity; [|constructor]. destruct I. constructor; cbn; auto. }
+    eapply K_trans; [exact K1|]. apply set_term_cursor_here_K. apply K1. }
+  destruct rs; [apply Hv; lia|]. cbv zeta. apply Hv. split_ifs; lia.
+Qed.
+
+Lemma set_focus_K s f : Inv s -> K s (set_focus s f).
+Proof.
+  intros I. unfold set_focus. assert (K s (with_has_focus s f)) as K1 by k_ext.
+  eapply K_trans; [exact K1|]. apply set_term_cursor_here_K. apply K1.
+Qed.
+
+Lemma set_term_cursor_core s x y : Core s -> width s <= 8 * zlen (tabstops s) -> Inv (set_term_cursor s x y).
+Proof.
+  intros C T. unfold set_term_cursor.
+  pose proof (constrain_range s x y 0 (c_w s C) (c_h s C) (c_reg s C)) as Hc.
+  destruct (constrain s x y 0) as [x1 y1]. cbn [fst snd] in *.
+  match goal with |- context [if ?b then _ else _] => destruct b eqn:Cb end;
+    destruct C; constructor; cbn in *; auto; try lia.
+Qed.
+
+Lemma init_Inv w h e : 1 <= w -> 1 <= h -> Inv (init w h e).
+Proof.
+  intros Hw Hh. unfold init, reset, clear. cbv zeta.
+  apply set_term_cursor_core.
+  - constructor; cbn; auto; try lia.
+    + apply zlen_repeatz. lia.
+    + apply Forall_repeat. unfold empty_line. cbn. apply zlen_repeatz. lia.
+    + unfold zlen. cbn [length]. lia.
+  - cbn. pose proof (tablen_bound w ltac:(lia)) as B. unfold repeatz. rewrite zlen_repeat.
+    destruct (0 <? w mod 8); lia.
+Qed.
+
+Definition Safe (r : result st) : Prop := match r with Ok s' => Inv s' | Err _ => False end.
+Definition op_ok (o : op) : Prop := match o with Resize w h => 1 <= w /\ 1 <= h | _ => True end.
+
+Lemma Keeps_Safe s r : Keeps s r -> Safe r.
+Proof. destruct r; cbn; [intros (I & _); exact I|tauto]. Qed.
+
+Lemma step_Safe s o : Inv s -> op_ok o -> Safe (step s o).
+Proof.
+  intros I Ho. destruct o; cbn [step].
+  - eapply Keeps_Safe. apply addstr_Keeps. assumption.
+  - destruct Ho as [Hw Hh]. destruct (resize_Safe s w h I Hw Hh) as (s' & E & I' & _). rewrite E. exact I'.
+  - eapply (Keeps_Safe s). apply scroll_buffer_K. assumption.
+  - eapply (Keeps_Safe s). apply scroll_buffer_K. assumption.
+  - eapply (Keeps_Safe s). apply set_focus_K. assumption.
+Qed.
+
+Lemma run_Safe ops : forall s, Inv s -> Forall op_ok ops -> Safe (run s ops).
+Proof.
+  induction ops; intros s I Ho; cbn [run].
+  - exact I.
+  - inversion Ho; subst. pose proof (step_Safe s a I H1) as Hs.
+    destruct (step s a) as [s1|]; [|contradiction]. cbn [bind]. apply IHops; assumption.
+Qed.
+
+(* the invariant after each operation of a session, not only at its end *)
+Lemma run_app s a b : run s (a ++ b) = bind (run s a) (fun s' => run s' b).
+Proof.
+  revert s. induction a; intros s; cbn [run app]; [reflexivity|].
+  destruct (step s a) as [s1|]; cbn [bind]; [apply IHa|reflexivity].
+Qed.
+
+(* ---------- chunking ---------- *)
+Lemma addbytes_app a : forall s b, addbytes s (a ++ b) = bind (addbytes s a) (fun s' => addbytes s' b).
+Proof.
+  induction a; intros s b; cbn [addbytes app]; [reflexivity|].
+  destruct (addbyte s a) as [s1|]; cbn [bind]; [apply IHa|reflexivity].
+Qed.
+
+Lemma addstr_addbytes s l : Inv s -> addstr s l = addbytes s l.
+Proof.
+  intros I. unfold addstr. pose proof (i_w s I). pose proof (i_h s I).
+  replace ((width s <=? 0) || (height s <=? 0)) with false by lia. reflexivity.
+Qed.
+
+Lemma feed_split s a b ops : Inv s -> run s (Feed (a ++ b) :: ops) = run s (Feed a :: Feed b :: ops).
+Proof.
+  intros I. cbn [run step]. rewrite !addstr_addbytes by assumption. rewrite addbytes_app.
+  pose proof (addbytes_Keeps a s I) as Ka.
+  destruct (addbytes s a) as [s1|]; cbn [bind]; [|reflexivity].
+  destruct Ka as (I1 & _). rewrite addstr_addbytes by assumption. reflexivity.
+Qed.
+
+Lemma feed_chunks chunks : forall s post, Inv s ->
+  run s (map Feed chunks ++ post) = run s (Feed (concat chunks) :: post).
+Proof.
+  induction chunks; intros s post I.
+  - cbn [map concat app run step]. rewrite addstr_addbytes by assumption. reflexivity.
+  - cbn [map concat app]. rewrite feed_split by assumption.
+    cbn [run step]. pose proof (addstr_Keeps s a I) as Ka.
+    destruct (addstr s a) as [s1|]; cbn [bind]; [|reflexivity].
+    destruct Ka as (I1 & _). rewrite IHchunks by assumption. reflexivity.
+Qed.
+
+Lemma chunking_from_init w h e pre chunks post :
+  1 <= w -> 1 <= h -> Forall op_ok pre ->
+  run (init w h e) (pre ++ map Feed chunks ++ post) = run (init w h e) (pre ++ Feed (concat chunks) :: post).
+Proof.
+  intros Hw Hh Hp. rewrite !run_app.
+  pose proof (run_Safe pre (init w h e) (init_Inv w h e Hw Hh) Hp) as Hs.
+  destruct (run (init w h e) pre) as [s1|]; cbn [bind]; [|reflexivity].
+  apply feed_chunks. exact Hs.
+Qed.
+
+(* ---------- scrollback ---------- *)
+Lemma scroll_appends s s' :
+  scroll s false = Ok s' ->
+  exists line, nthz (term s) (norm_index (zlen (term s)) (sr_start s)) = Some line /\ sb s' = sb_push (sb s) line.
+Proof.
+  unfold scroll, pop. intros H.
+  destruct (index_ok (zlen (term s)) (norm_index (zlen (term s)) (sr_start s))); [|discriminate].
+  destruct (nthz (term s) (norm_index (zlen (term s)) (sr_start s))) as [x|]; [|discriminate].
+  cbn in H. inversion H. exists x. split; reflexivity.
+Qed.
+
+Lemma dropz_app_le {A} (l m : list A) k : 0 <= k <= zlen l -> dropz k (l ++ m) = dropz k l ++ m.
+Proof.
+  intros H. unfold dropz. rewrite skipn_app.
+  replace (Z.to_nat k - length l)%nat with 0%nat by (unfold zlen in H; lia). reflexivity.
+Qed.
+
+Lemma dropz_dropz {A} (l : list A) a b : 0 <= a -> 0 <= b -> dropz a (dropz b l) = dropz (a + b) l.
+Proof.
+  intros. unfold dropz. rewrite skipn_skipn. f_equal. lia.
+Qed.
+
+(* the lines are kept in order: the new scrollback is a suffix of the old one followed by the new lines *)
+Lemma SbExt_suffix a b : SbExt a b -> exists k new, 0 <= k <= zlen (a ++ new) /\ b = dropz k (a ++ new).
+Proof.
+  intros H. induction H.
+  - exists 0, []. rewrite app_nil_r. split; [pose proof (zlen_nonneg a); lia|reflexivity].
+  - destruct IHSbExt as (k & new & Hk & ->).
+    assert (dropz k (a ++ new) ++ [r] = dropz k (a ++ new ++ [r])) as E.
+    { rewrite (app_assoc a new [r]). rewrite dropz_app_le by lia. reflexivity. }
+    assert (zlen (a ++ new ++ [r]) = zlen (a ++ new) + 1) as L.
+    { rewrite (app_assoc a new [r]). unfold zlen. rewrite (app_length (a ++ new)). cbn [length]. lia. }
+    unfold sb_push. cbv zeta. rewrite E.
+    destruct (scrollback_maxlen_gen <? zlen (dropz k (a ++ new ++ [r]))).
+    + exists (1 + k), (new ++ [r]). split; [lia|]. apply dropz_dropz; lia.
+    + exists k, (new ++ [r]). split; [lia|reflexivity].
+Qed.
+
+Lemma addstr_scrollback s data s' : Inv s -> addstr s data = Ok s' -> SbExt (sb s) (sb s').
+Proof.
+  intros I E. pose proof (addstr_Keeps s data I) as Kp. rewrite E in Kp. destruct Kp as (_ & _ & _ & S). exact S.
 Qed.
